@@ -17,12 +17,14 @@
    below the diagonal becomes a transposed copy where it was evaluated directly: the statement holds because the
    overlap block is symmetric, which is a theorem for well-formed shells over a field.
 
-   STILL PARTIAL in C13 (Props/C13.v): the same assembled statement for the other two-index functions (the generic
-   theorem C13_one_shell_segmented_generic reduces it to a uniform entry formula obeying the column law; only
-   overlap_integral is instantiated), the four-index assembly, and column_scale assembled for negative factors. *)
+   The same for kinetic_energy_integral (second instance of the generic theorem).
+   STILL PARTIAL in C13 (Props/C13.v): the same assembled statement for the remaining two-index functions (the
+   generic theorem C13_one_shell_segmented_generic reduces it to a uniform entry formula obeying the column law;
+   overlap_integral and kinetic_energy_integral are instantiated), the four-index assembly, and column_scale
+   assembled for negative factors. *)
 From Coq Require Import List Arith QArith Qcanon.
 From GB Require Import Base.Field Base.FNum Base.Tables Model.Shell Model.MomentInt Model.Spherical Model.Assembly
-  Model.Overlap Proofs.ContractionP Proofs.CoreSumP Proofs.CoreBlockP Proofs.CoreExamplesP Proofs.AssembledP
+  Model.Overlap Model.OneBody Proofs.ContractionP Proofs.CoreSumP Proofs.CoreBlockP Proofs.CoreExamplesP Proofs.AssembledP
   Proofs.AssembledOverlapP Proofs.AssembledSphP Proofs.AssembledSphOverlapP Proofs.AssembledExamplesP
   Proofs.ContractionAsmP.
 Import ListNotations.
@@ -72,6 +74,25 @@ Theorem C13_generalized_is_segmented_assembled_overlap :
   overlap_integral K (segmented_basis K basis) T = overlap_integral K basis T.
 Proof. exact (fun F K Kf => overlap_segmented_basis K Kf). Qed.
 Print Assumptions C13_generalized_is_segmented_assembled_overlap.
+
+(* kinetic_energy_integral: one shell / every shell replaced *)
+Theorem C13_generalized_is_segmented_assembled_kinetic_one_shell :
+  forall (F : Type) (K : Fops F), is_field K ->
+  (forall x : F, fapx K x = x) -> fadd K (f1 K) (f1 K) <> f0 K ->
+  forall (pre post : list (shell F)) (s : shell F) (T : option (list (list F))),
+  basis_ok K (pre ++ s :: post) ->
+  kinetic_integral K (pre ++ segments K s ++ post) T = kinetic_integral K (pre ++ s :: post) T.
+Proof. exact (fun F K Kf => kinetic_one_shell_segmented K Kf). Qed.
+Print Assumptions C13_generalized_is_segmented_assembled_kinetic_one_shell.
+
+Theorem C13_generalized_is_segmented_assembled_kinetic :
+  forall (F : Type) (K : Fops F), is_field K ->
+  (forall x : F, fapx K x = x) -> fadd K (f1 K) (f1 K) <> f0 K ->
+  forall (basis : list (shell F)) (T : option (list (list F))),
+  basis_ok K basis ->
+  kinetic_integral K (segmented_basis K basis) T = kinetic_integral K basis T.
+Proof. exact (fun F K Kf => kinetic_segmented_basis K Kf). Qed.
+Print Assumptions C13_generalized_is_segmented_assembled_kinetic.
 
 (* generic: any matrix-valued function of a basis whose entries are, through the index map oidx, a function
    Ent a b m q m' q' of the two shells and the positions that obeys the column law on both sides *)
